@@ -9,12 +9,13 @@
    interleaving do not occur in the statement: they are absent from the sequential side.
    The step-by-step refinement  process.c -> abstract machine  IS mechanised for the executable worker model (TW/Worker.v,
    tied op by op to process.c by the correspondence run): for every valid program with types below the reserved ones, every
-   checkpoint interval and EVERY script of deliveries, late hand-backs and cancellations (no GVT announcement, so histories are
-   complete), the worker's state is related to a reachable state of the abstract machine (TW/WorkerAbs.v); hence the histories
-   process.c builds are, below any bound under which nothing is pending, the sequential execution, and at quiescence each LP has
-   processed exactly its sequential dispatch sequence in that order (theorems C01_worker_...).  Not mechanised: the same refinement across
-   GVT announcements and fossil collections (released history), and for several worker threads (thread interleavings are covered
-   by the abstract schedules, the multi-thread code by the correspondence runs). *)
+   checkpoint interval and EVERY script of deliveries, late hand-backs, cancellations, GVT announcements and the (lazy) fossil
+   collections they trigger, the worker's state is related to a reachable state of the abstract machine (TW/WorkerAbs.v; the groups
+   fossil collection releases stay on the abstract side as ghosts, all below the GVT and never cancelled); hence what an LP has
+   processed -- released prefix followed by retained history -- is, below any bound under which nothing is pending, the sequential
+   execution, and at quiescence exactly its sequential dispatch sequence in that order (theorems C01_worker_...).  Not mechanised:
+   the same refinement for several worker threads (thread interleavings are covered by the abstract schedules, the multi-thread
+   code by the correspondence runs). *)
 From Coq Require Import NArith List.
 From RS Require Import TW.App TW.Seq TW.AppAbs TW.SeqRefines.
 From RS.Abs Require Import Peel Abs Bridge AbsM AbsM2 BridgeM ReachM.
@@ -63,31 +64,47 @@ Proof.
            (ainit p) (ainit_nodup p) (length (init_events p (nlps p) 0)) (ainit_bound p) a R).
 Qed.
 
-(* process.c level: the worker model refines the abstract machine *)
+(* process.c level: the worker model refines the abstract machine, for every script (GVT announcements and the fossil
+   collections they trigger included) *)
 Theorem C01_worker_refines_the_abstract_machine : forall (p : prog) (ck : nat), WorkerOnceApp.types_okb p = true ->
-  forall ops : list Worker.wop, forallb WorkerAbs.no_gvt_op ops = true ->
+  forall ops : list Worker.wop,
   exists a, WorkerAbs.R p (fold_left (Worker.wstep p ck) ops (Worker.w_init p)) a.
 Proof. exact WorkerAbs.worker_refines_abstract. Qed.
 
+(* what an LP has processed = what fossil collection released (all below the GVT) followed by what it retains; below any
+   bound under which nothing is pending that sequence is the LP's projection of the sequential execution *)
 Theorem C01_worker_histories_below_a_valid_bound_are_sequential : forall (p : prog) (ck : nat), prog_valid p = true -> WorkerOnceApp.types_okb p = true ->
-  forall (ops : list Worker.wop) (below : cont -> bool), forallb WorkerAbs.no_gvt_op ops = true ->
+  forall (ops : list Worker.wop) (below : cont -> bool),
   (forall c1 c2, ~ Abs.tlt cont tltb c2 c1 -> below c2 = true -> below c1 = true) ->
   let w := fold_left (Worker.wstep p ck) ops (Worker.w_init p) in
   (forall y, In y (WorkerSafety.pend w) -> below (WorkerAbs.evc y) = false) ->
   forall tr, Peel.seqrun cont (Abs.clt cont cltb) lpstate (Bridge.handle_g cont lpstate (ahandle p) below) (s0 p) (Bridge.Pg cont (WorkerAbs.init0 p) below) tr ->
-  forall l, (l < nlps p)%nat -> Peel.proj cont l tr = map WorkerAbs.evc (filter (fun y => below (WorkerAbs.evc y)) (WorkerAbs.processed w l)).
+  forall l, (l < nlps p)%nat -> exists released, (forall y, In y released -> BinInt.Z.lt (BinInt.Z.of_N (WorkerSafety.tm y)) (Worker.k_gvt w)) /\
+    Peel.proj cont l tr = map WorkerAbs.evc (filter (fun y => below (WorkerAbs.evc y)) (released ++ WorkerAbs.retained w l)).
 Proof. exact WorkerAbs.worker_below_bound_is_sequential. Qed.
 
+(* while the GVT is 0 nothing has been released *)
+Theorem C01_worker_histories_before_any_gvt : forall (p : prog) (ck : nat), prog_valid p = true -> WorkerOnceApp.types_okb p = true ->
+  forall (ops : list Worker.wop) (below : cont -> bool),
+  (forall c1 c2, ~ Abs.tlt cont tltb c2 c1 -> below c2 = true -> below c1 = true) ->
+  let w := fold_left (Worker.wstep p ck) ops (Worker.w_init p) in
+  BinInt.Z.le (Worker.k_gvt w) BinNums.Z0 -> (forall y, In y (WorkerSafety.pend w) -> below (WorkerAbs.evc y) = false) ->
+  forall tr, Peel.seqrun cont (Abs.clt cont cltb) lpstate (Bridge.handle_g cont lpstate (ahandle p) below) (s0 p) (Bridge.Pg cont (WorkerAbs.init0 p) below) tr ->
+  forall l, (l < nlps p)%nat -> Peel.proj cont l tr = map WorkerAbs.evc (filter (fun y => below (WorkerAbs.evc y)) (WorkerAbs.retained w l)).
+Proof. exact WorkerAbs.worker_below_bound_gvt0. Qed.
+
 Theorem C01_worker_at_quiescence_has_processed_the_sequential_sequence : forall (p : prog) (ck : nat), prog_valid p = true -> WorkerOnceApp.types_okb p = true ->
-  forall ops : list Worker.wop, forallb WorkerAbs.no_gvt_op ops = true ->
+  forall ops : list Worker.wop,
   let w := fold_left (Worker.wstep p ck) ops (Worker.w_init p) in
   WorkerSafety.pend w = nil ->
   forall tr, Peel.seqrun cont (Abs.clt cont cltb) lpstate (Bridge.handle_g cont lpstate (ahandle p) (fun _ => true)) (s0 p) (Bridge.Pg cont (WorkerAbs.init0 p) (fun _ => true)) tr ->
-  forall l, (l < nlps p)%nat -> Peel.proj cont l tr = map WorkerAbs.evc (WorkerAbs.processed w l).
+  forall l, (l < nlps p)%nat -> exists released, (forall y, In y released -> BinInt.Z.lt (BinInt.Z.of_N (WorkerSafety.tm y)) (Worker.k_gvt w)) /\
+    Peel.proj cont l tr = map WorkerAbs.evc (released ++ WorkerAbs.retained w l).
 Proof. exact WorkerAbs.worker_quiescent_is_sequential. Qed.
 
 Print Assumptions C01_worker_refines_the_abstract_machine.
 Print Assumptions C01_worker_histories_below_a_valid_bound_are_sequential.
+Print Assumptions C01_worker_histories_before_any_gvt.
 Print Assumptions C01_worker_at_quiescence_has_processed_the_sequential_sequence.
 Print Assumptions C01_below_valid_bound_histories_are_sequential.
 Print Assumptions C01_quiescent_histories_are_the_reference_log.
